@@ -184,12 +184,22 @@ pub fn run(out: &Path, seed: u64, thorough: bool) -> Result<(), Box<dyn std::err
     let engine_evals = engine_crash_search(seed, thorough, &mut failures, &mut dist);
     evaluations += engine_evals;
     let imports = "From Brc.Model Require Import Base History Table Tie04.\nFrom BrcGen Require Import Consts.";
-    let files = cf::write_shards(out, "c04_k", imports, "kcase", "bad_kcases W", &terms, 16)?;
+    let mut files = cf::write_shards(out, "c04_k", imports, "kcase", "bad_kcases W", &terms, 16)?;
+    // store level: the recorded persistent writes of every commit / reorg of real engine runs
+    // against the model's write scripts (Model/Crash.v, checker Model/TieCrash.v)
+    let st = store_script_tie(seed, thorough, &mut failures, &mut dist);
+    let st_imports = "From Brc.Model Require Import Base History Table BlockTable Store Crash TieCrash.\nFrom BrcGen Require Import Consts.";
+    let st_files = cf::write_shards(out, "c04_s", st_imports, "ccase", "bad_ccases W", &st.terms, 8)?;
+    files.extend(st_files);
+    evaluations += st.checks;
+    if samples.len() < 3 { if let Some(x) = st.sample.clone() { samples.push(x); } }
     let meta = json!({
         "files": files,
         "evaluations": evaluations,
         "distinct_nontrivial": terms.len(),
         "crash_points": crash_points, "engine_level_crash_recoveries": engine_evals,
+        "store_script_checks": st.checks, "store_script_histories": st.terms.len(), "store_script_writes_compared": st.writes,
+        "store_script_rule": "store level: histories with commits (every 2-3 blocks / random) and in-window reorgs run on the real engine behind the RPC table; for EVERY accepted brc20_commitToDatabase and brc20_reorg the recorder's persistent-write events (table, key, put/delete, value; flushes) are compared in Coq with the write script the model computes from the store-operation trace up to that point (sto_run, then commit_script / reorg_script): everything outside the versioned tables exactly and in order, the versioned part as key pairs (order inside a pair exact; pairs sorted by (table, key) since HashMap order is arbitrary), tables in the reflected order; the trace is also checked to be in the domain of the crash theorems (crun, clean boundary, guard = do).",
         "rule": "table level: random histories over 4 keys (window-edge jumps, unsets, commits, in-window reorgs); for EVERY commit / reorg and EVERY persistent write of it, the run is repeated with the fail-point armed at that write (that write and all later ones are not performed), the table is reopened and a recovery reorg is issued to the highest and to the lowest admissible height (<= the durable height, <= a crashed reorg's target, inside the window); every key is compared with the write log. Engine level (search only): histories with commits run on the real engine behind the RPC table, a crash at sampled persistent-write indexes (first, last, middle, random) of brc20_commitToDatabase, reopen, brc20_reorg to the durable height (and one below), full observation against a fresh instance fed only the surviving blocks. A case is one (history, crash site, write index, recovery target); all are distinct by construction.",
         "distribution": dist,
         "samples": samples,
@@ -298,4 +308,95 @@ fn copy_dir(a: &Path, b: &Path) -> std::io::Result<()> {
         if p.is_dir() { copy_dir(&p, &q)?; } else if e.file_name() != "LOCK" { std::fs::copy(&p, &q)?; }
     }
     Ok(())
+}
+
+
+pub struct StoreTie { pub terms: Vec<String>, pub checks: u64, pub writes: u64, pub sample: Option<serde_json::Value> }
+
+/// Store-level script tie: real engine runs; every commit / reorg becomes a `CICheck` item that
+/// carries the persistent writes the recorder saw, every other store event a `CIOp`.
+fn store_script_tie(seed: u64, thorough: bool, failures: &mut Vec<serde_json::Value>, dist: &mut BTreeMap<String, u64>) -> StoreTie {
+    use crate::sim::{gen_history, with_schedule, CommitSchedule, GenParams, Genesis, Op as SOp, Run};
+    use crate::trace::{key_term, Tracer, BTABLES, VTABLES};
+    let mut rng = Rng::new(seed ^ 0x5C04);
+    let nhist = if thorough { 30 } else { 5 };
+    let mut st = StoreTie { terms: Vec::new(), checks: 0, writes: 0, sample: None };
+    for hi in 0..nhist {
+        let mut p = GenParams::small();
+        p.blocks = 6 + rng.below(6);
+        p.max_txs = 3;
+        p.genesis = if hi % 2 == 0 { Genesis::Initialise } else { Genesis::Mine };
+        p.p_reorg = 18; p.p_clear = 4; p.p_reopen = 3; p.p_mine = 15; p.max_mine = 4; p.edge_plans = false; p.p_pool_script = 10;
+        p.schedule = *rng.pick(&[CommitSchedule::EveryK(2), CommitSchedule::EveryK(3), CommitSchedule::Random]);
+        let mut h = gen_history(&mut rng, &p);
+        h = with_schedule(&h, p.schedule, &mut rng);
+        // end with a reorg of a few blocks (crossing the last commit when there is one) and a commit
+        {
+            let mut dry = Run::new();
+            if dry.run(&h) && !dry.tracker.desynced && dry.tracker.at_boundary() {
+                if let Some(top) = dry.tracker.height() {
+                    if top >= 2 { let back = 1 + rng.below(3.min(top)); h.push(SOp::Reorg(top - back)); h.push(SOp::Mine { n: 1, ts: 1_800_000_000 + hi as u64 }); h.push(SOp::Commit); }
+                }
+            }
+        }
+        let mut run = Run::new();
+        let mut tr = Tracer::new();
+        let mut items: Vec<String> = Vec::new();
+        let mut n_checks = 0u64;
+        for op in &h {
+            let out = run.step(op).clone();
+            if out.status.is_fatal() {
+                failures.push(json!({"what": format!("c04 store tie: {} answered {}", op.kind(), out.status.class()), "case": {"history": h}}));
+                break;
+            }
+            let resolved = run.log.last().unwrap().0.clone();
+            let before = tr.items.len();
+            tr.absorb(&resolved, &out);
+            let mut new_items: Vec<String> = tr.items.drain(before..).collect();
+            let is_site = matches!(resolved, SOp::Commit | SOp::Reorg(_));
+            if is_site {
+                if let Some(last) = new_items.last().cloned() {
+                    if last.starts_with("IOp (SCommit") || last.starts_with("IOp (SReorg") {
+                        new_items.pop();
+                        let mut ws: Vec<String> = Vec::new();
+                        for e in &out.events {
+                            match e {
+                                Ev::VPut { table, hist, key, val } => {
+                                    let t = VTABLES.iter().position(|x| x == table).unwrap_or(99);
+                                    let v = if *hist { if val.is_some() { "(Some 0)".to_string() } else { "None".to_string() } }
+                                            else { match val { Some(b) => format!("(Some {})", tr.val(b)), None => "None".to_string() } };
+                                    ws.push(format!("RV {} {} {}", hist, key_term(t, key), v));
+                                }
+                                Ev::BPut { table, key, val } => {
+                                    let b = BTABLES.iter().position(|x| x == table).unwrap_or(99);
+                                    let v = match val { Some(x) => format!("(Some {})", tr.val(x)), None => "None".to_string() };
+                                    ws.push(format!("RB {} {} {}", b, key, v));
+                                }
+                                Ev::BFlush { table } => { let b = BTABLES.iter().position(|x| x == table).unwrap_or(99); ws.push(format!("RF {}", b)); }
+                                Ev::CFlush { .. } => ws.push("RF 3".to_string()),
+                                Ev::CPut { .. } => ws.push("RF 98".to_string()),
+                                _ => {}
+                            }
+                        }
+                        st.writes += ws.len() as u64;
+                        n_checks += 1;
+                        *dist.entry(if matches!(resolved, SOp::Commit) { "store_script_commit" } else { "store_script_reorg" }.to_string()).or_default() += 1;
+                        if st.sample.is_none() && ws.len() > 12 {
+                            st.sample = Some(json!({"store_script_check": &last[5..last.len() - 1], "recorded_persistent_writes": ws.len(), "first_writes": ws.iter().take(10).collect::<Vec<_>>()}));
+                        }
+                        let inner = &last[4..]; // "(SCommit)" / "(SReorg n)"
+                        new_items.push(format!("CICheck {} [{}]", inner, ws.join("; ")));
+                    }
+                }
+            }
+            for it in new_items {
+                if let Some(rest) = it.strip_prefix("IOp ") { items.push(format!("CIOp {}", rest)); }
+                else if it.starts_with("CICheck") { items.push(it); }
+                // IRefused: the store refused (no write happened): nothing for the script tie
+            }
+        }
+        st.checks += n_checks;
+        st.terms.push(format!("{{| cc_id := {}; cc_items := [\n  {}\n] |}}", hi, items.join(";\n  ")));
+    }
+    st
 }
